@@ -16,6 +16,7 @@ func init() {
 			"AF selectLogs window; the merge iterator rules of C04 (windows are filled from a time-ordered stream); PV-WRITEBACK: a modified copy of a window series is stored back or deleted on every path",
 			"the key list the output loop walks is computed from the window in this step; since/until of openLog (C02); PV-RESET step stamped",
 			"FE-BOOL IsInstant; PV-PAIR: a sample carries the label set built for its own entry",
+			"FE-CLASS avg: an infinite running average is kept for finite/same-sign values; AF point time: float64(UnixMilli())/1000, conversion before division",
 		},
 		NotDecided: []string{"numeric results of the aggregators (Welford, quantile interpolation)", "that the storage delivers samples in time order", "equality instant = range at T beyond the shared code path"},
 		Rules: func(r *Run) {
@@ -33,6 +34,8 @@ func init() {
 			ruleOpenLog(r)        // the lower edge of the first window: since/until as the daemon reads them
 			ruleSampleLabelSet(r) // a series in the window keeps the labels of its own samples
 			ruleIsInstant(r)
+			ruleAvgInfinityGuard(r)
+			ruleStepTimestampMillis(r)
 		},
 	})
 }
